@@ -28,6 +28,7 @@ type SpecEnv struct {
 	at      *ssa.BasicBlock // program point for resolving Go variable names (loop header)
 	stepOld bool            // `step` clause: old() is the loop-head state of the current iteration
 	posHint token.Pos       // where Go type expressions written in the contract are evaluated
+	oldVars map[string]*Value // calls clauses: the bindings old(...) is evaluated under (root parameters, unshadowed)
 }
 
 type specErr struct{ msg string }
@@ -179,6 +180,15 @@ func (env *SpecEnv) eval(e *Expr) *Value {
 			saved := env.fr.phiOv
 			env.fr.phiOv = nil
 			defer func() { env.fr.phiOv = saved }()
+			return n.eval(e.Args[0])
+		}
+		if env.oldVars != nil {
+			// calls clause: inside old(...) names denote the verified function's own parameters at entry, not the
+			// callee's parameters of the same name (which shadow them outside old)
+			n.vars = env.oldVars
+			n.at = nil
+			n.li = nil
+			n.oldVars = nil
 			return n.eval(e.Args[0])
 		}
 		if env.fr != nil && env.at != nil {
@@ -419,7 +429,7 @@ func (x *Exec) resolveGoVar(fr *Frame, at *ssa.BasicBlock, name string, st *Stat
 		}
 		if blk != nil {
 			if blk == at {
-				if _, isPhi := v.(*ssa.Phi); !isPhi {
+				if _, isPhi := v.(*ssa.Phi); !isPhi && !(x.resolveLimit > 0 && idx < x.resolveLimit) {
 					return
 				}
 			} else if !blk.Dominates(at) {
@@ -1119,6 +1129,11 @@ func (env *SpecEnv) call(e *Expr) *Value {
 			specFail("ret(%s): not tracked", n)
 		}
 		v, ok := env.cur.cells[c]
+		if !ok && c.T != nil {
+			// not called on the path(s) reaching this point: the value is unspecified (clauses guard it with
+			// called(F) / ncalls(F)); an arbitrary value of the result type keeps the clause well-formed
+			v, ok = x.freshValue("ret_uncalled$"+n, c.T, env.cur.guard), true
+		}
 		if !ok {
 			specFail("ret(%s): callee not called on every path to this point (guard with called(%s))", n, n)
 		}
